@@ -401,16 +401,11 @@ class Harness:
     async def burst(self, bearer, pdus, ctx: str = ''):
         self.ctx = ctx
         start = len(bearer.rx)
-        others = [(b, len(b.rx)) for b in self.bearers if b is not bearer]
         for pdu, label in pdus:
             bearer.send(pdu, label)
         await self.settle()
         for b in self.bearers:
             b.pairing.close(self.r, ctx)
-        for b, n in others:
-            if len(b.rx) != n:
-                self.r.bad(f'pairing/reply-on-wrong-bearer/{bearer.kind}->{b.kind}',
-                           f'{len(b.rx) - n} PDUs appeared on the other bearer; {ctx}')
         return bearer.rx[start:]
 
     async def finish(self):
